@@ -121,7 +121,7 @@ static void prop(Ctx &c) {
         size_t nops = 1 + c.draw(11);
         for (size_t k = 0; k < nops; k++) {
             { std::string sofar = c.desc.str(); c.desc << " script so far: " << script.str(); c.checkpoint(); c.desc.str(sofar); c.desc.seekp(0, std::ios::end); }
-            switch (c.draw(13)) {
+            switch (c.draw(16)) {
             case 0: getters(z); script << "getters "; break;
             case 1: { size_t n = c.boolean() ? 1 + c.draw(70) : 1 + c.skewed(200000); std::vector<char> b(n); int reps = 1 + (int)c.draw(4);
                       for (int r = 0; r < reps; r++) { ssize_t g = zck_read(z, b.data(), n); if (g <= 0) break; } script << "read(" << n << ")x" << reps << " "; break; }
@@ -143,6 +143,23 @@ static void prop(Ctx &c) {
             case 10: if (opened2) { if (c.boolean()) (void)zck_find_matching_chunks(z2, z); else (void)zck_find_matching_chunks(z, z2); script << "find_matching "; } break;
             case 11: zck_reset_failed_chunks(z); (void)!zck_clear_error(z); script << "reset_failed+clear_error "; break;
             case 12: (void)!zck_close(z); script << "close "; break;
+            case 13: {   // remaining inspection calls: digest comparison across and within contexts, hash table rebuild, owner/descriptor getters, single range text
+                script << "inspect2 "; (void)zck_generate_hashdb(z); (void)!zck_get_fd(z);
+                zckChunk *a = zck_get_first_chunk(z), *b = opened2 ? zck_get_first_chunk(z2) : nullptr; size_t n = 0;
+                for (; a && n < 64; a = zck_get_next_chunk(a), n++) { (void)zck_get_chunk_ctx(a); (void)zck_compare_chunk_digest(a, a); if (b) { (void)zck_compare_chunk_digest(a, b); (void)zck_compare_chunk_digest(b, a); b = zck_get_next_chunk(b); } zckChunk *nx = zck_get_next_chunk(a); if (nx) (void)zck_compare_chunk_digest(a, nx); }
+                char *r = zck_get_range((size_t)gen::boundary_value(c), (size_t)gen::boundary_value(c)); free(r); break; }
+            case 14: {   // download context over this file: getters/setters, reset, a range set and replaced, free with and without a range
+                script << "dlctx "; zckDL *d = zck_dl_init(z); if (!d) break;
+                (void)!zck_dl_get_bytes_downloaded(d); (void)!zck_dl_get_bytes_uploaded(d); (void)zck_dl_get_zck(d); (void)zck_dl_get_range(d);
+                zckRange *r = zck_get_first_chunk(z) ? zck_get_missing_range(z, c.boolean() ? -1 : 2) : nullptr;
+                if (r) { (void)!zck_dl_set_range(d, r); (void)zck_dl_get_range(d); }
+                if (c.boolean()) zck_dl_reset(d);
+                if (r && c.boolean()) { std::string line = "Content-Type: multipart/byteranges; boundary=" + std::string(1 + c.draw(5), 'x') + "\r\n"; (void)!zck_header_cb((char *)line.data(), 1, line.size(), d); Bytes junk = c.bytes(c.draw(300)); if (!junk.empty()) (void)!zck_write_chunk_cb(junk.data(), 1, junk.size(), d); }
+                (void)!zck_dl_set_range(d, nullptr); if (r) zck_range_free(&r); zck_dl_free(&d); break; }
+            case 15: {   // the lead / header of the same bytes read once more on the same context (an application re-validating a file it keeps open)
+                script << "reread "; if (lseek(fd, 0, SEEK_SET) != 0) break;
+                if (c.boolean()) { (void)!zck_read_lead(z); (void)!zck_read_header(z); } else (void)!zck_validate_lead(z);
+                break; }
             default: getters(z2); break;
             }
         }
